@@ -3,7 +3,8 @@
 from .ast import S
 
 TOP_SELS = ["a", ".b", "#c", "a, .b", ".x .y", "d > e", ".b:hover"]
-NESTED_SELS = ["a", ".b", "#c", "&", "&-s", "&.t", "&:hover", ".x &", "& > y", "& + &", "& .z", "a, .b", "&-s, .q", "& ~ w", "&, .m", "> k", "+ k"]
+NESTED_SELS = ["a", ".b", "#c", "&", "&-s", "&.t", "&:hover", ".x &", "& > y", "& + &", "& .z", "a, .b", "&-s, .q", "& ~ w", "&, .m", "> k", "+ k",
+               ":not(&)", "u:not(&)", ":is(&) v", "&:not(.n)", "&::before", "&[x]", "q &, & r", "&-s &-t", ".o:where(&)"]
 MEDIA = ["screen", "print", "(a)", "(b)", "screen and (a)", "(a) and (b)", "screen, print"]
 ATROOT_Q = [None, None, ("without", {"rule"}), ("without", {"media"}), ("without", {"all"}), ("with", {"rule"}), ("with", {"media"}),
             ("without", {"media", "rule"}), ("with", {"all"}), ("without", {"supports"}), ("with", {"supports", "media"}), ("without", {"foo"})]
@@ -42,6 +43,11 @@ class Gen:
                     qt = "(%s: %s)" % (q[0], " ".join(sorted(q[1])))
                 # after `@at-root` (default or excluding rules) declarations need a rule again
                 excl_rule = q is None or (q[0] == "without" and ("rule" in q[1] or "all" in q[1])) or (q[0] == "with" and "rule" not in q[1] and "all" not in q[1])
+                if q is None and rng.chance(0.5):
+                    # the selector form `@at-root <selector> { ... }` (= `@at-root { <selector> { ... } }`)
+                    r = S("rule", selector=rng.choice(NESTED_SELS if in_rule else TOP_SELS), body=self.body(depth + 1, True, in_media))
+                    out.append(S("atroot", query=None, q=None, body=[r], short=True))
+                    continue
                 body = self.body(depth + 1, in_rule and not excl_rule, in_media)
                 out.append(S("atroot", query=qt, q=q, body=body))
             elif in_rule and k < 96:
